@@ -222,11 +222,11 @@ def rule_unknown(ctx):
 
 
 RULES = [
-    ("SHAPE-TABLE", rule_shape_table, 8),
+    ("SHAPE-TABLE", rule_shape_table, 4),
     ("FRAME", rule_frame, 4),
     ("PARITY", rule_parity, 3),
     ("PARAMETRIC", rule_parametric, 6),  # 3 hook call sites + 3 "touches T only through" obligations; conversions vary
-    ("FST-PYPI", rule_fst, 10),
+    ("FST-PYPI", rule_fst, 6),
     ("GUARDXFORM", lambda ctx: None, 3),
     ("TYPED", rule_unknown, 2),
 ]
